@@ -286,6 +286,11 @@ class Vocab:
         if kind == "regex":
             w = r.choice(["/^road/", "/a|b/", "/^road/i"])
             return w, [["R", w]]
+        if kind == "istring":
+            # a case-insensitive string comparison literal: "text"i / 'text'i, in either quote character
+            q = r.choice(["'", '"'])
+            inner = r.choice(["aitkin", "Main St", "x"])
+            return q + inner + q + "i", [["Q", inner], ["W", "I"]]
         if kind == "list":
             w = r.choice(["{a,b,c}", "{1,2}"])
             return w, [["L", w]]
@@ -331,7 +336,7 @@ class Vocab:
     def kinds_for(self, typ, key):
         ks = list(self.keywords.get(typ, {}).get(key, []))
         if key in ("expression", "filter") and typ in ("class", "layer"):
-            ks += ["regex"] + (["list"] if key == "expression" else [])
+            ks += ["regex", "istring"] + (["list"] if key == "expression" else [])
         return ks
 
 
